@@ -175,7 +175,15 @@ func (x *exec) subref(ref string, st types.Type, field int) string {
 	kind := fmt.Sprintf("%d", hashStr(si.fields[field])%1000003+1)
 	_ = id
 	key := "subax!" + t
-	if !x.subAx[key] {
+	if x.c.NoLet > 0 {
+		// inside a quantifier the reference may mention bound variables: state the fact once, universally
+		key = "subaxq!" + fn
+		if !x.subAx[key] {
+			x.subAx[key] = true
+			p := "(" + fn + " sp!)"
+			x.c.Axiom([]string{fn}, "(forall ((sp! Int)) (! "+And(Eq(App(inv, p), "sp!"), Eq(App("subkind", p), kind), Not(Eq(p, "0")))+" :pattern ("+p+")))")
+		}
+	} else if !x.subAx[key] {
 		x.subAx[key] = true
 		x.c.Axiom([]string{fn}, And(Eq(App(inv, t), ref), Eq(App("subkind", t), kind), Not(Eq(t, "0"))))
 	}
